@@ -44,6 +44,18 @@ Theorem C09_dup_fields : forall t bs, split_raw t = Blocks bs -> Forall dup_ok b
 Proof. exact split_raw_dup_ok. Qed.
 Print Assumptions C09_dup_fields.
 
+(* incremental parsing (Splitter.split(library=L), parse_string(text, library=L)): the blocks of the text are added to
+   the library that already holds `prev`; the result is what adding all blocks in one go gives - in particular every
+   duplicate in the new text points at the first block of the WHOLE library with that key *)
+Theorem C09_incremental : forall prev t bs, split_raw t = Blocks bs ->
+  split_into prev t = Blocks (flag_all [] (prev ++ bs)).
+Proof. exact split_into_flag_all. Qed.
+Print Assumptions C09_incremental.
+
+Theorem C09_incremental_fresh : forall t, split_into [] t = split t.
+Proof. exact split_into_nil. Qed.
+Print Assumptions C09_incremental_fresh.
+
 (* ---- on documents of the dialect grammar (entry keys, string names AND field names may repeat): the number of
    returned blocks equals the number of source blocks and the i-th block is the flagged i-th source block *)
 From BP Require Import Model.Grammar Proofs.GrammarCorollaries.
